@@ -201,7 +201,14 @@ def analyse(facts, tier):
             for f_ in guard_facts(gb, b, st):
                 val.append(fact_str(f_))
     txt = ' '.join(val)
-    okv = all(x in txt for x in ('id.lsb > 127', 'id.msb > 127', 'id.percussive > 1'))
+    # (member names of the public OPN2_BankId struct; the local that holds the copy may have any name)
+    def rng(f_, fld, lim):
+        if f_[0] == 'or':
+            return any(rng(l_, fld, lim) for alt in f_[1] for l_ in alt)
+        n_ = cmp_norm(f_) if f_[0] == 'cmp' else None
+        return bool(n_) and n_[0] == '>' and n_[2] == lim and strip(n_[1]).get('k') == 'MemberExpr' and short(strip(n_[1])['n']) == fld
+    gfs = [f_ for b, j, st in gb.cfg.returns() if const_of(st['s'].get('e')) == -1 for f_ in guard_facts(gb, b, st)]
+    okv = all(any(rng(f_, fld, lim) for f_ in gfs) for fld, lim in (('lsb', 127), ('msb', 127), ('percussive', 1)))
     obls.append(Obl('C12.R1', gb.name, 'identifier range validated', gb.loc, 'discharged' if okv else 'finding', why='lsb, msb <= 127 and percussive <= 1 or -1 is returned' if okv else 'identifier fields are not range-checked: %s' % txt[:120]))
     # decode
     dec = {}
@@ -288,7 +295,7 @@ def analyse(facts, tier):
         got_bank, got_ins = zero_out(env.get(bank_id), val), env.get(ins_id)
         if val['perc']:
             want_bank = ({'patch': 1}, TAG + (128 if (val['xg'] and val['sfx']) else 0))
-            want_ins = ({'note': 1}, 0)
+            want_ins = ({non.params[1]['n']: 1}, 0)      # the key parameter (second parameter of realTime_NoteOn)
             if got_bank != want_bank and bad_perc is None:
                 bad_perc = 'with %s the key is %s, expected program%s + tag = %s' % (val, got_bank, ' + 128' if want_bank[1] != TAG else '', want_bank)
             if got_ins != want_ins and bad_ent is None:
@@ -309,6 +316,7 @@ def analyse(facts, tier):
     # ---- R2 fallback chain
     sd = single_defs(non.d)
     finds = []
+    find_keys = []
     def lookup_key(x):
         """the key expression when call x looks a bank up in m_insBanks: directly, or through a local helper that calls find() on the
         map it receives with one of its parameters as the key"""
@@ -330,12 +338,22 @@ def analyse(facts, tier):
                 a = subst(key_e, sd)
                 gf = guard_facts(non, b, st)
                 finds.append((b, j, st, show(strip(a)), gf))
+                find_keys.append(key_e)
     if len(finds) != 3:
         obls.append(Obl('C12.R2', non.name, 'three look-ups', non.loc, 'finding', why='%d bank look-ups found, expected exact / LSB-cleared / bank 0' % len(finds)))
     else:
         order = all(non.cfg.stmt_before((finds[i][0], finds[i][1]), (finds[i + 1][0], finds[i + 1][1])) and not non.cfg.stmt_before((finds[i + 1][0], finds[i + 1][1]), (finds[i][0], finds[i][1])) for i in range(2))
         a0, a1, a2 = finds[0][3], finds[1][3], finds[2][3]
-        ok_args = a0 == 'bank' and ('~127' in a1 or '& -128' in a1 or '18446744073709551488' in a1) and ('& PercussionTag' in a2 or '& %d' % TAG in a2)
+        # first key: the bank key local itself (the one R1 tracked); second: it with the low 7 bits cleared; third: only its tag bit
+        def masked(e, mask_ok):
+            e = strip(e)
+            if e.get('k') == 'BinaryOperator' and e.get('op') == '&':
+                for a_, b_ in ((e['l'], e['r']), (e['r'], e['l'])):
+                    if strip(a_).get('id') == bank_id and const_of(b_) is not None and mask_ok(const_of(b_)):
+                        return True
+            return False
+        keys_e = [subst(kx, sd) for kx in find_keys]
+        ok_args = strip(keys_e[0]).get('id') == bank_id and masked(keys_e[1], lambda c: (c & 0xFFFF) == 0xFF80) and masked(keys_e[2], lambda c: c == TAG)
         obls.append(Obl('C12.R2', non.name, 'look-up keys: exact, LSB cleared, bank 0 of the kind', finds[0][2]['loc'], 'discharged' if (order and ok_args) else 'finding',
                         why='find(bank), find(bank & ~0x7F), find(bank & PercussionTag) in this order' if (order and ok_args) else 'look-up keys/order differ: %s' % [a0, a1, a2]))
         def blank_guard(gf):
@@ -346,12 +364,18 @@ def analyse(facts, tier):
             obls.append(Obl('C12.R2', non.name, nm + ' only when the previous entry is blank', finds[i][2]['loc'], 'discharged' if ok else 'finding',
                             why='guarded by ains->flags & Flag_NoSound' if ok else 'fallback is not conditional on the previous entry being blank (guards: %s)' % [fact_str(f_) for f_ in finds[i][4]][:4]))
     # blank final result: return false before calculateChipChannelGoodness / prepareChipChannelForNewNote
-    isb, _ = decl_init(non, 'isBlankNote')
-    okb = isb is not None and mentions(isb, member_named('flags')) and mentions(isb, ref_named('Flag_NoSound'))
+    # the blank flag: the bool local defined as `ains->flags & Flag_NoSound`
+    isb, blank_id = None, None
+    for b, j, st in non.cfg.stmts():
+        if st['s'].get('k') == 'DeclStmt':
+            for v in st['s']['decls']:
+                if v.get('init') is not None and (v.get('t') or {}).get('bool') and mentions(v['init'], member_named('flags')) and mentions(v['init'], ref_named('Flag_NoSound')):
+                    isb, blank_id = v['init'], v['id']
+    okb = isb is not None
     rej = None
     for b, j, st in non.cfg.returns():
         gf = guard_facts(non, b, st)
-        if const_of(st['s'].get('e')) == 0 and any(f_[0] == 'truth' and f_[2] and short(strip(f_[1]).get('n', '')) == 'isBlankNote' for f_ in gf):
+        if const_of(st['s'].get('e')) == 0 and any(f_[0] == 'truth' and f_[2] and strip(f_[1]).get('id') == blank_id for f_ in gf):
             rej = (b, j, st)
     alloc_after = False
     if rej:
@@ -391,7 +415,7 @@ def analyse(facts, tier):
     s1, l1 = storage(si)
     s2, l2 = storage(gi2)
     it_ok = any(short(callee_name(x)) == 'from_ptrs' for b, j, st in si.cfg.stmts() for x in calls_in(st['s']))
-    ok = s1 is not None and s1 == s2 and it_ok and 'second.ins[index]' in s1
+    ok = s1 is not None and s1 == s2 and it_ok and 'second.ins[' in s1
     obls.append(Obl('C12.R4', si.name, 'instrument API writes the bank entry', l1, 'discharged' if ok else 'finding',
                     why='set/get convert to/from it->second.ins[index] of the BankMap iterator' if ok else 'set and get do not address the same bank entry (%s / %s)' % (s1, s2)))
     nu = facts.fn('OPNMIDIplay::noteUpdate')
@@ -406,8 +430,20 @@ def analyse(facts, tier):
     obls.append(Obl('C12.R4', non.name, 'note-on reads the bank map entries', non.loc, 'discharged' if ok_read else 'finding', why='ains = &bnk->ins[midiins] from synth.m_insBanks.find(..)'))
 
     # ---- R5 / R6
-    isp, locp = decl_init(non, 'isPercussion')
-    okp = isp is not None and '((channel % 16) == 9)' in show(isp) and 'is_xg_percussion' in show(isp) and strip(isp).get('op') == '||'
+    isp, locp = None, non.loc
+    for b, j, st in non.cfg.stmts():
+        if st['s'].get('k') == 'DeclStmt':
+            for v in st['s']['decls']:
+                if v['id'] == perc_id:
+                    isp, locp = v.get('init'), st['loc']
+    ch_id = non.params[0]['id']
+    def is_ch9(e):
+        e = strip(e)
+        if e.get('k') == 'BinaryOperator' and e.get('op') == '==' and const_of(e['r']) == 9:
+            l = strip(e['l'])
+            return l.get('k') == 'BinaryOperator' and l.get('op') == '%' and strip(l['l']).get('id') == ch_id and const_of(l['r']) == 16
+        return False
+    okp = isp is not None and strip(isp).get('op') == '||' and any(is_ch9(y) for y in (strip(isp)['l'], strip(isp)['r'])) and mentions(isp, member_named('is_xg_percussion'))
     obls.append(Obl('C12.R5', non.name, 'percussion role', locp, 'discharged' if okp else 'finding', why=show(isp) if isp else 'isPercussion not found'))
     xg = facts.fn('isXgPercChannel')
     rets = [st['s'].get('e') for b, j, st in xg.cfg.returns()]
